@@ -1,5 +1,6 @@
-(* C14, paths of children, indexes, wildcards and descents: parse_path (print_path fs) =
-   Some (map norm_frag fs) for EVERY such fragment list (any key bytes, any integer). *)
+(* C14, paths of children, indexes, wildcards, descents, unions and slices: parse_path
+   (print_path fs) = Some (map norm_frag fs) for EVERY such fragment list (any key bytes, any
+   integer); norm_frag is the identity except on one-member unions and short / long slices. *)
 From Coq Require Import Init.Byte NArith ZArith List Bool Lia.
 Require Import Ojg.Base.Bytes Ojg.Base.Utf8 Ojg.Gen.StrMaps Ojg.Json.Ref Ojg.Json.IntLit Ojg.Json.Fmt Ojg.Json.Writer Ojg.Json.WInt.
 Require Import Ojg.Jp.Str Ojg.Jp.StrU Ojg.Jp.PathText.
@@ -122,14 +123,13 @@ Proof.
 Qed.
 
 (* ---- unions *)
-Definition norm_member (m : bytes + Z) : bytes + Z := match m with inl s => inl (sanitize s) | inr i => inr i end.
 
 (* one member followed by a comma or the closing bracket, inside readUnion *)
 Lemma read_member fuel m e rest : (e = x2c \/ e = x5d) ->
   read_union (S fuel) (print_member m ++ e :: rest) =
-  after_member (norm_member m) (e :: rest) (read_union fuel).
+  after_member m (e :: rest) (read_union fuel).
 Proof.
-  intro He. destruct m as [s|i]; cbn [print_member norm_member read_union].
+  intro He. destruct m as [s|i]; cbn [print_member read_union].
   - cbn [List.app skip_space]. change (beqb x27 x20) with false. cbn iota.
     change (beqb x27 x27 || beqb x27 x22) with true. cbn iota.
     rewrite <- app_assoc. cbn [List.app].
@@ -140,12 +140,12 @@ Proof.
 Qed.
 
 Lemma read_members ms : forall fuel rest, ms <> [] -> (length ms <= fuel)%nat ->
-  read_union fuel (print_members ms ++ x5d :: rest) = Some (map norm_member ms, rest).
+  read_union fuel (print_members ms ++ x5d :: rest) = Some (ms, rest).
 Proof.
   induction ms as [|m ms IH]; intros fuel rest Hne Hf; [contradiction|].
   destruct fuel as [|fuel]; [simpl in Hf; lia|]. simpl in Hf.
   destruct ms as [|m2 ms].
-  - cbn [print_members map]. rewrite (read_member fuel m x5d rest (or_intror eq_refl)).
+  - cbn [print_members]. rewrite (read_member fuel m x5d rest (or_intror eq_refl)).
     unfold after_member. cbn [skip_space]. change (beqb x5d x20) with false. cbn iota.
     change (beqb x5d x2c) with false. change (beqb x5d x5d) with true. cbn iota. reflexivity.
   - change (print_members (m :: m2 :: ms)) with (print_member m ++ x2c :: print_members (m2 :: ms)).
@@ -166,11 +166,11 @@ Qed.
 (* a union of at least two members *)
 Lemma parse_union f ld m1 m2 ms rest :
   parse_frags (S f) ld (print_frag (NUnion (m1 :: m2 :: ms)) ++ rest) =
-  cons_opt (NUnion (map norm_member (m1 :: m2 :: ms))) (parse_frags f false rest).
+  cons_opt (NUnion (m1 :: m2 :: ms)) (parse_frags f false rest).
 Proof.
   unfold print_frag. change (print_members (m1 :: m2 :: ms)) with (print_member m1 ++ x2c :: print_members (m2 :: ms)).
   set (tl := print_members (m2 :: ms)).
-  assert (Htl : read_union (length (tl ++ x5d :: rest)) (tl ++ x5d :: rest) = Some (map norm_member (m2 :: ms), rest)).
+  assert (Htl : read_union (length (tl ++ x5d :: rest)) (tl ++ x5d :: rest) = Some (m2 :: ms, rest)).
   { apply read_members; [discriminate|]. rewrite app_length. pose proof (print_members_length (m2 :: ms)). fold tl in H. cbn [length] in *. lia. }
   cbn [List.app parse_frags]. change (beqb x5b x2e) with false. change (beqb x5b x2a) with false. change (beqb x5b x5b) with true. cbn iota.
   rewrite <- !app_assoc. cbn [List.app].
@@ -282,7 +282,7 @@ Qed.
 
 Lemma parse_bracket_text f ld k rest :
   parse_frags (S f) ld (x5b :: x27 :: enc_body_u (length k) k ++ x27 :: x5d :: rest) =
-  cons_opt (NChild (sanitize k)) (parse_frags f false rest).
+  cons_opt (NChild k) (parse_frags f false rest).
 Proof.
   cbn [parse_frags]. change (beqb x5b x2e) with false. change (beqb x5b x2a) with false. change (beqb x5b x5b) with true. cbn iota.
   cbn [skip_space]. change (beqb x27 x20) with false. cbn iota. change (beqb x27 x3a) with false. change (beqb x27 x2a) with false. cbn iota.
@@ -292,9 +292,9 @@ Proof.
 Qed.
 
 Lemma parse_bracket_child f ld k rest : token_ok k = false ->
-  parse_frags (S f) ld (print_frag (NChild k) ++ rest) = cons_opt (norm_frag (NChild k)) (parse_frags f false rest).
+  parse_frags (S f) ld (print_frag (NChild k) ++ rest) = cons_opt (NChild k) (parse_frags f false rest).
 Proof.
-  intro Ht. unfold print_frag, norm_frag. rewrite Ht. cbn [List.app]. rewrite <- app_assoc. cbn [List.app].
+  intro Ht. unfold print_frag. rewrite Ht. cbn [List.app]. rewrite <- app_assoc. cbn [List.app].
   apply parse_bracket_text.
 Qed.
 
@@ -326,14 +326,14 @@ Proof.
     pose proof (Forall_inv Hok) as Hokf. pose proof (Forall_inv_tail Hok) as Hoks.
     destruct f as [k|i|star| |ms|l].
     + cbn [print_ld]. destruct (token_ok k) eqn:Ht.
-      * assert (Hn : norm_frag (NChild k) = NChild k) by (unfold norm_frag; rewrite Ht; reflexivity). rewrite Hn.
+      * change (norm_frag (NChild k)) with (NChild k).
         destruct k as [|c k]; [discriminate Ht|]. unfold token_ok in Ht. cbn [forallb] in Ht.
         apply andb_true_iff in Ht as [Hc Hk].
         destruct ld.
         { rewrite (parse_bare_child fuel c k _ Hc Hk (printed_ends_token fs)). rewrite IH by (assumption || lia). reflexivity. }
         { change ((x2e :: c :: k) ++ print_ld false fs) with (x2e :: (c :: k) ++ print_ld false fs).
           rewrite (parse_dot_child fuel false c k _ Hc Hk (printed_ends_token fs)). rewrite IH by (assumption || lia). reflexivity. }
-      * rewrite (parse_bracket_child fuel ld k _ Ht). rewrite IH by (assumption || lia). reflexivity.
+      * change (norm_frag (NChild k)) with (NChild k). rewrite (parse_bracket_child fuel ld k _ Ht). rewrite IH by (assumption || lia). reflexivity.
     + cbn [print_ld]. rewrite parse_nth. rewrite IH by (assumption || lia). reflexivity.
     + destruct star; cbn [print_ld print_frag].
       * destruct ld; cbn [List.app parse_frags].
@@ -353,8 +353,7 @@ Proof.
         { change (print_frag (NUnion [inr i])) with (print_frag (NNth i)). rewrite parse_nth.
           rewrite IH by (assumption || lia). reflexivity. }
       * rewrite parse_union. rewrite IH by (assumption || lia).
-        assert (Hn : norm_frag (NUnion (m1 :: m2 :: ms)) = NUnion (map norm_member (m1 :: m2 :: ms))).
-        { destruct m1; reflexivity. }
+        assert (Hn : norm_frag (NUnion (m1 :: m2 :: ms)) = NUnion (m1 :: m2 :: ms)) by (destruct m1; reflexivity).
         rewrite Hn. reflexivity.
     + cbn [print_ld]. rewrite parse_slice. rewrite IH by (assumption || lia). reflexivity.
 Qed.
@@ -380,27 +379,18 @@ Proof.
   apply parse_printed; [exact Hok|]. pose proof (printed_length fs false). lia.
 Qed.
 
-(* keys and union members that are valid UTF-8 (sanitize k = k) come back unchanged, and so does
-   the whole path when its unions have at least two members *)
-Definition member_clean (m : bytes + Z) : Prop := match m with inl s => sanitize s = s | inr _ => True end.
+(* the path comes back unchanged when its unions have at least two members and its slices two
+   or three numbers *)
 Definition frag_clean (f : nfrag) : Prop :=
   match f with
-  | NChild k => sanitize k = k
-  | NUnion ms => (2 <= length ms)%nat /\ Forall member_clean ms
+  | NUnion ms => (2 <= length ms)%nat
   | NSlice l => (length l = 2 \/ length l = 3)%nat
   | _ => True
   end.
-Lemma norm_members_clean ms : Forall member_clean ms -> map norm_member ms = ms.
-Proof.
-  induction 1 as [|m ms Hm _ IH]; [reflexivity|]. cbn [map]. rewrite IH. f_equal.
-  destruct m as [s|i]; [simpl in *; rewrite Hm|]; reflexivity.
-Qed.
 Lemma norm_clean f : frag_clean f -> norm_frag f = f /\ frag_ok f.
 Proof.
   destruct f as [k|i|star| |ms|l]; simpl; try (intros; split; [reflexivity|exact I]).
-  - intro H. split; [|exact I]. destruct (token_ok k); [reflexivity | rewrite H; reflexivity].
-  - intros [Hl Hm]. destruct ms as [|m1 [|m2 ms]]; try (simpl in Hl; lia). split; [|exact I].
-    destruct m1 as [s|i]; cbn [norm_frag]; f_equal; exact (norm_members_clean _ Hm).
+  - intro Hl. destruct ms as [|m1 [|m2 ms]]; try (simpl in Hl; lia). split; [|exact I]. destruct m1; reflexivity.
   - intro Hl. split; [|exact I]. destruct l as [|a [|b [|c [|d l]]]]; simpl in Hl; try lia; reflexivity.
 Qed.
 
